@@ -422,7 +422,8 @@ def main():
     dirs3 = [(2.0, 3.0, 6.0), (1.0, 4.0, 8.0)]
     for et in (["SEG2", "SEG3"] if tier == "quick" else ["SEG2", "SEG3", "SEG4", "SEG5"]):
         for tim in (False, True):
-            for dd in (dirs2 if tier == "thorough" else dirs2[:1]):
+            # the second direction points towards -x: with the default section axis the member's (direction, y axis) pair is clockwise, its z axis is -z
+            for dd in (dirs2 if tier == "thorough" or et == "SEG2" else dirs2[:1]):
                 configs.append({"sim": "beam", "dim": 2, "elem": et, "timoshenko": tim, "direction": dd})
             for dd in (dirs3 if tier == "thorough" else dirs3[:1]):
                 configs.append({"sim": "beam", "dim": 3, "elem": et, "timoshenko": tim, "direction": dd})
